@@ -13,8 +13,10 @@ TRUSTED = [
     "translate/c16locks (go/ast, syntactic): lock skeletons of SyncMap/OrderSync/SyncSlice/SyncPrioritySlice/MutexBucket(Item) regenerated from the "
     "tree under test on every run; owner = root identifier, guarded field = written field of a struct owning a mutex; loops unrolled 0/1 times "
     "(0/1/2 when the body locks)",
-    "coq/C16/AtomicModel.v multi_step: the four methods declared to be several atomic steps (MutexBucketItem.GetOrSet, SyncPrioritySlice.Appends, "
-    "MutexBucket.Len, MutexBucket.Clear) with the exact shapes their paths may have; justified in docs/C16-NOTES.md",
+    "coq/C16/AtomicModel.v multi_step: the shapes of the four methods of the current sources that are several critical sections, pinned exactly: "
+    "MutexBucketItem.GetOrSet (double-checked locking, proved to linearize) and SyncPrioritySlice.Appends (documented sequence of atomic Appends, proved) "
+    "are legitimate multi-step methods; MutexBucket.Len / Clear (one section per bucket) are NOT exempted — their non-atomicity is the open finding "
+    "C16-mutexbucket-len-not-atomic, reproduced by the regular concurrent rounds; docs/C16-NOTES.md",
     "harness/cmd/c16conc: real goroutines, logical-clock stamps, plain slice/map sequential specifications, porcupine v1.3.0 (linearizability checker) "
     "cross-checked by an exhaustive search; sound for hits, says nothing when silent",
     "Go harnesses + generators + brute-force monitors (harness/cmd/c16*, harness/vh), bin/check, lib/vlib.py",
@@ -37,11 +39,18 @@ MANIFEST = {
             "every appended element; the paged slice (every page size) refines a plain slice, Order refines its entry list with distinct keys, "
             "bucket maps refine one map, the bit set refines a finite set with Equal/In/NotIn/Key independent of trailing zero words; absent-key "
             "operations are harmless. Concurrency: lock skeletons are extracted from the current sources on every run and checked against a lock "
-            "discipline whose consequences (writer exclusion, no race on guarded fields, no deadlock) are proved for any number of threads. "
-            "Each run replays ~8 000 generated histories on the real code and inside Coq and restates the property with brute-force monitors.",
+            "discipline whose consequences (writer exclusion, no race on guarded fields, no deadlock) are proved for any number of threads, and against "
+            "the obligation that every method the models treat as one atomic step is exactly one critical section holding all its accesses to guarded "
+            "fields (GetOrSet and Appends are declared multi-step with exact shapes and their own theorems; the bucket-by-bucket MutexBucket.Len/Clear are "
+            "an open finding, not an exemption). Concurrent rounds on the real code are checked for linearizability against plain slice/map "
+            "specifications; MutexBucket also with Len/Clear mixed in, which normally reproduces that finding (a non-linearizable MutexBucket history "
+            "counts as the finding only if it becomes linearizable once the Len calls are dropped and Clear is taken bucket by bucket; anything else is "
+            "a violation). Each run replays ~4 500 generated histories on the real code and inside Coq, ~11 600 concurrent rounds on the real code, and "
+            "restates the property with brute-force monitors.",
     "note": "Models are hand-written and tied by differential runs; scores/keys/values are int64; page size >= 1; linearizability proper is not "
-            "proved (atomic blocks + race freedom + deadlock freedom + one-critical-section-per-atomic-step are; MutexBucket.Len/Clear are per-bucket atomic "
-            "only and SyncPrioritySlice.Appends is a sequence of atomic Appends — documented). Six defects found by the check and repaired by the four fixes/C16-*.patch "
+            "proved (atomic blocks + race freedom + deadlock freedom + one-critical-section-per-atomic-step are). Open finding C16-mutexbucket-len-not-atomic: MutexBucket.Len/Clear "
+            "work bucket by bucket and are not linearizable (reproduced by the regular run, KNOWN-FINDING line); SyncPrioritySlice.Appends is a sequence of "
+            "atomic Appends by design (the property's statement about it holds per step). Six defects found by the check and repaired by the four fixes/C16-*.patch "
             "(the models follow the repaired code), one more outside the modelled domain (NaN scores); see docs/C16-NOTES.md.",
     "technique": "Coq refinement/invariant proofs + lockstep differential testing + go/ast lock-skeleton extraction + linearizability stress (porcupine)",
 }
